@@ -127,7 +127,7 @@ func buildNetwork(r *rand.Rand, o genOpts) *genNet {
 	// nodes
 	nNodes := 2 + r.Intn(3)
 	for i := 0; i < nNodes; i++ {
-		n := acmelib.NewNode(g.name(r, "node", o), acmelib.NodeID(i*pick(r, 1, 3)+i), 1+r.Intn(2))
+		n := acmelib.NewNode(g.name(r, "node", o), acmelib.NodeID(4*i+r.Intn(3)), 1+r.Intn(2))
 		if r.Intn(3) == 0 {
 			n.SetDesc("node desc")
 		}
